@@ -154,6 +154,14 @@ func initPool() {
 		})
 		guest := smallRecord("GUEST", false, 9, []Feat{{Key: "misc_feature", Loc: lrg(0, 9), Quals: [][]string{{"note", "guest"}, {"label", "gg"}}}})
 		guest2 := smallRecord("GUESTB", false, 4, []Feat{{Key: "gene", Loc: lrg(1, 3), Quals: [][]string{{"gene", "inner"}}}})
+		// same residues as guest.gb / host.gb but a different annotation (a key that hashes residues only misses this)
+		guest3 := smallRecord("GUEST", false, 9, []Feat{{Key: "misc_feature", Loc: lrg(0, 9), Quals: [][]string{{"note", "guest"}, {"label", "gg"}}}, {Key: "variation", Loc: lpt(4), Quals: [][]string{{"note", "only in guest3"}}}})
+		host3 := smallRecord("SMALLB", false, 45, []Feat{
+			{Key: "source", Loc: lrg(0, 45), Quals: [][]string{{"organism", "synthetic construct"}}},
+			{Key: "gene", Loc: lprg(0, 12, true, false), Quals: [][]string{{"gene", "gamma"}, {"label", "g3"}}},
+			{Key: "misc_feature", Loc: lrg(40, 45), Quals: q("m2")},
+			{Key: "misc_feature", Loc: lrg(20, 25), Quals: q("only-in-host3")},
+		})
 		part, phix, pbat := corpusFile("NC_001422_part.gb"), corpusFile("NC_001422.gb"), corpusFile("pBAT5.txt")
 		pool["small"] = small
 		pool["small2"] = small2
@@ -167,8 +175,8 @@ func initPool() {
 		pool["garbage"] = []byte("this is not a sequence file\n")
 		pool["empty"] = []byte{}
 		for name, data := range map[string][]byte{
-			"guest.gb": guest, "guest2.gb": guest2, "guest.fasta": []byte(">g\nggttcc\n"),
-			"host.gb": small2, "host2.gb": small,
+			"guest.gb": guest, "guest2.gb": guest2, "guest3.gb": guest3, "guest.fasta": []byte(">g\nggttcc\n"), "guest2.fasta": []byte(">other description\nggttcc\n"),
+			"host.gb": small2, "host2.gb": small, "host3.gb": host3,
 			"table1.txt":  []byte("misc_feature    3..8\n                /note=\"added one\"\n"),
 			"table2.txt":  []byte("misc_feature    3..8\n                /note=\"added two\"\nvariation       12\n"),
 			"query.fasta": []byte(">q\ncatg\n"), "query2.fasta": []byte(">q\ngacc\n"),
